@@ -71,6 +71,19 @@ def jobs(tier, seed):
             out.append({"kind": "optimize", "c": c, "obj": oc, "text": obj_string(rng, oc), "maximize": rng.random() < 0.5})
     for pin in PINNED:
         out.append(dict(pin, kind="optimize"))
+    out.extend(_presolve_jobs())
+    # an unsatisfiable contract asked about variables that no constraint mentions (declared but free, or foreign):
+    # the answer is ValueError, not "unbounded"
+    for i in range(16 if tier == "quick" else 200):
+        ins, outs = ifaces[i % len(ifaces)]
+        t = B.rterm(rng, ins, alphabet)
+        c = {"in": ins, "out": outs + ["q"], "a": [t, {k: -v for k, v in t.items()}], "g": [B.rterm(rng, ins + outs, alphabet, must=outs)] if i % 2 else []}
+        free = rng.choice(["q", "foreign"]) if i % 4 else "q"
+        if i % 3 == 0:
+            out.append({"kind": "bounds", "c": c, "var": "q"})
+        else:
+            oc = {free: rng.choice([-2, -1, 1, 3])}
+            out.append({"kind": "optimize", "c": c, "obj": oc, "text": obj_string(rng, oc), "maximize": rng.random() < 0.5})
     return out
 
 
@@ -80,6 +93,50 @@ PINNED = [
     {"c": {"in": ["x", "y", "z"], "out": [], "a": [{"x": 2, "z": 2}, {"x": 1, "y": 2, "z": 2}, {"x": -1, "y": -2, "z": -2}], "g": []}, "conc": {"pa0": -1, "pa1": 0, "pa2": 2}, "obj": {"x": -2, "y": -2}, "text": "-2x - 2y", "maximize": False},
     {"c": {"in": ["x", "y", "z"], "out": [], "a": [{"x": 2, "z": 2}, {"x": 1, "y": 2, "z": 2}, {"x": -1, "y": -2, "z": -2}], "g": []}, "conc": {"pa0": -1, "pa1": 0, "pa2": 2}, "obj": {"x": 1}, "text": "x", "maximize": True},
 ]
+
+
+# more instances of the same kind, found by random probing of scipy's linprog (status 2 with presolve, status 3
+# without): (A, b, c) of  min c.x  s.t.  A x <= b.  Each is asked as a minimisation, as the mirrored maximisation,
+# and — for single-variable objectives — through get_variable_bounds.
+PRESOLVE_INSTANCES = [
+    ([[0, -2, 1], [0, -1, 0], [-1, -2, -1], [1, 1, -2]], [1, -2, 2, 1], [0, -1, 0]),
+    ([[2, 2, -2], [1, 0, 0], [2, -1, 2], [0, 0, -2], [-1, -1, -2]], [-1, -1, 3, 0, 2], [1, 0, -1]),
+    ([[-1, -2, 2], [2, 1, -1], [2, 0, 0], [0, -1, -2]], [0, 0, -1, -2], [1, -2, 0]),
+    ([[0, -2, 1], [-1, -2, 2], [2, 2, 1], [2, 1, -1]], [1, 3, -1, 1], [0, 0, 2]),
+    ([[2, -1, -1], [-1, 1, 1], [1, 0, 0]], [3, 0, 0], [2, 1, 0]),
+    ([[1, -2, 1], [-2, -2, 0], [0, 2, 2], [-1, 2, -1]], [2, -1, -1, 3], [0, 2, 1]),
+    ([[1, 0, 1], [-1, 1, 1], [2, -2, -1], [1, -2, 0]], [1, 3, 3, -1], [1, 2, 0]),
+    ([[-2, 1, -2], [1, 0, -1], [-2, 0, 0], [-1, -1, 2]], [3, -2, -2, 2], [1, 0, -1]),
+    ([[0, 2, 2, -2], [0, 0, -2, 0], [2, 0, -1, 2], [-2, 0, 0, -2]], [2, 1, 3, 3], [0, -1, 0, 0]),
+    ([[0, 2, -2], [-1, -1, 2], [2, -1, -2], [-1, 0, 0]], [1, 3, 0, 2], [0, 0, -2]),
+]
+
+
+def _obj_text(obj):
+    parts = []
+    for i, (v, c) in enumerate(obj.items()):
+        mag = abs(c)
+        txt = v if mag == 1 else f"{mag}{v}"
+        parts.append((("-" if c < 0 else "") if i == 0 else (" - " if c < 0 else " + ")) + txt)
+    return "".join(parts)
+
+
+def _presolve_jobs():
+    out = []
+    for A, b, c in PRESOLVE_INSTANCES:
+        names = [f"x{j}" for j in range(len(c))]
+        rows = [{names[j]: a for j, a in enumerate(r) if a} for r in A]
+        spec = {"in": names, "out": [], "a": rows, "g": []}
+        conc = {f"pa{i}": v for i, v in enumerate(b)}
+        obj = {names[j]: v for j, v in enumerate(c) if v}
+        neg = {k: -v for k, v in obj.items()}
+        out.append({"kind": "optimize", "c": spec, "conc": conc, "obj": obj, "text": _obj_text(obj), "maximize": False})
+        out.append({"kind": "optimize", "c": spec, "conc": conc, "obj": neg, "text": _obj_text(neg), "maximize": True})
+        # the bounded direction of the same objective
+        out.append({"kind": "optimize", "c": spec, "conc": conc, "obj": obj, "text": _obj_text(obj), "maximize": True})
+        if len(obj) == 1:
+            out.append({"kind": "bounds", "c": spec, "conc": conc, "var": next(iter(obj))})
+    return out
 
 
 class _Pinned:
